@@ -9,20 +9,35 @@ exactly the bytes the writer produced (binary_buffer_reader / deserializer over 
 blank object, and the reconstructed object is compared with the original symbol by symbol.  Interpretation is the
 concrete-shape / symbolic-content machine of c09_roundtrip_vm.py: nothing is executed, contents are never numbers.
 
-Rules (function = the pair label of c09.py, e.g. "std::vector<int> [binary_string_writer/binary_buffer_reader]")
-  R-RT  completes                  writer and reader run to their return on every shape (no access outside an object,
-                                   nothing thrown, no released object touched)
-        value-identity             every scalar byte, every container length, every element in order, every map entry
-        cursor-at-end              after a value has been read the cursor is exactly where the writer's output for that
-                                   value ended
-        reads-only-own-bytes       the reader touched no byte outside the encoding of the value it decoded
-        sequence                   four values written one after the other are read back in order (same clauses for the
-                                   2nd..4th value, whose bytes start where the previous value ended)
+Rules (function = the pair label of c09.py, e.g. "std::vector<int> [binary_string_writer/binary_buffer_reader]"; the
+key is the clause; every type is analysed on four shapes - eight in the thorough tier - each alone and all in one
+archive)
+  R-RT:completes  completes            writer and reader run to their return on every shape (no access outside an
+                                       object, nothing thrown, no released object touched)
+  R-RT:value      value-identity       every scalar byte, every container length, every element in order, every map
+                                       entry of the rebuilt object is the written one
+  R-RT:cursor     cursor-at-end        after a value has been read the cursor is exactly where the writer's output for
+                                       that value ended
+  R-RT:reads      reads-only-own-bytes the reader touched no byte outside the encoding of the value it decoded (and none
+                                       beyond the end of the archive)
+  R-RT:sequence   sequence             four values written one after the other are read back in order (the clauses above
+                                       for the 2nd..4th value, whose bytes start where the previous value ended);
+                  mixed-sequence       the same with one value of every paired type of a unit in one archive
+  R-RT:image      encoding-is-determined-by-the-value  every byte of the archive is a count or a byte of the written
+                                       value: no indeterminate memory (padding of a by-value copy, an uninitialised local)
+                                       and no part of an address reaches the archive - equal values have equal encodings
+  R-RT:writer     buffer-writer-same-bytes  through a binary_buffer_writer over an exactly sized buffer the same bytes
+                                       arrive and the write cursor ends at the end (binary_serializer_basic pairs)
+  R-RT:api        api:completes / api:reads-only-own-bytes / api:value-identity   the functional entry points:
+                                       deserialize<T>(serialize(v)) == v, through igris::serialize(const T&) and
+                                       igris::deserialize<T>(const igris::buffer&) resp. (const std::string&)
   R-RT-BLOCK (counted blocks of the archive API: dump(const char*,n) / dump(buffer) / dump(string_view) against
-        load(char*,max) / load(writable_buffer&) / load_set_buffer)
-        delivers-first-min(len,max) the destination receives payload[0, min(len,max)) in order
-        rest-of-destination-untouched, block-skipped-completely (the value that follows decodes), size/pointer of
-        the buffer object afterwards
+        load(char*,max) / load(writable_buffer&) / load_set_buffer; payload 0..3 bytes, destination 0..4 bytes)
+        completes, block-is-u16-length-then-payload, delivers-first-min(len,max), rest-of-destination-untouched,
+        buffer-becomes-(data,min(len,max)), view-is-the-payload, block-skipped-completely (the cursor stands behind the
+        block and the int that follows decodes)
+A scenario that cannot be interpreted exactly (unmodelled external, control that depends on contents and whose pinned
+representatives pass, indeterminate branch) is deferred as analysis-broken for its pair, never a verdict.
 """
 import re
 
@@ -896,7 +911,7 @@ def run_values(ctx, arch, root, desc, variants, assume, stats):
     return run_items(ctx, arch, [(root, desc, v) for v in variants], assume, stats)
 
 
-def run_items(ctx, arch, items, assume, stats):
+def run_items(ctx, arch, items, assume, stats, check_image=True):
     """write the values (root, type, variant) one after the other through one writer, read them back in order
     through one reader.  Raises Fail(clause, ...) / Stop / AnalysisBroken; returns facts on success"""
     m, h = ctx.machine(assume)
@@ -965,6 +980,19 @@ def run_items(ctx, arch, items, assume, stats):
             raise Fail('reads-only-own-bytes' if n == 0 else 'sequence', '%s%s: the reader touched bytes [%d, %d) of the archive, the '
                        'encoding of the value is [%d, %d)' % (st, seq, lo, hi, begin, ends[n]))
         begin = ends[n]
+    # the encoding is a function of the value: every byte of the archive is a constant (a count) or a byte of the written
+    # value - never indeterminate memory (padding of a by-value copy, an uninitialised local), never part of an address
+    bad = [k for k, c in enumerate(cells) if not isinstance(c, (int, Sym))] if check_image else []
+    if bad:
+        k = bad[0]
+        n = [i for i, e in enumerate(ends) if k < e][0]
+        root, desc, v = items[n]
+        tag = m.tags[who[k]] if who is not None and k < len(who) else ()
+        raise Fail('encoding-is-determined-by-the-value',
+                   '%s: byte %d of its encoding (offset %d of the archive, %d such byte(s) in all) is %s: two encodings of the same '
+                   'value differ, and memory that is not part of the value is disclosed%s'
+                   % (shape_text(desc, specs[n][1]), k - (ends[n - 1] if n else 0), k, len(bad), show_cell(cells[k]),
+                      ('; the byte was put there by %s' % chain_text(tag)) if tag else ''))
     note_stats(stats, m)
     return {'bytes': ends[-1] if ends else 0, 'cells': cells}
 
@@ -1081,7 +1109,8 @@ def first_diff_loc(h, desc, p, want, got):
     return None
 
 
-CLAUSES = ('completes', 'value-identity', 'cursor-at-end', 'reads-only-own-bytes', 'sequence')
+CLAUSES = ('completes', 'value-identity', 'cursor-at-end', 'reads-only-own-bytes', 'sequence',
+           'encoding-is-determined-by-the-value')
 
 
 def helper_of(ctx, f):
@@ -1098,6 +1127,11 @@ def helpers_text(ctx, w, r):
     return ('  [writer: %s (%s:%d); reader: %s (%s:%d)]' % (short(hw.qualname), relpath(ctx.repo, hw.file), hw.line,
                                                             short(hr.qualname), relpath(ctx.repo, hr.file), hr.line),
             '%s:%d' % (hr.file, hr.line))
+
+
+SUBRULE = {'completes': 'completes', 'value-identity': 'value', 'cursor-at-end': 'cursor', 'reads-only-own-bytes': 'reads',
+           'sequence': 'sequence', 'mixed-sequence': 'sequence', 'buffer-writer-same-bytes': 'writer',
+           'encoding-is-determined-by-the-value': 'image'}
 
 
 def evaluate(rep, rule, fn, clauses, plans, where0, suffix, fact=None, prefix=''):
@@ -1122,11 +1156,12 @@ def evaluate(rep, rule, fn, clauses, plans, where0, suffix, fact=None, prefix=''
         f = failed.get(c)
         if f is None and n > first:
             continue
-        rep.inst(rule, fn, prefix + c, f is None, (f.where if f is not None and f.where else where0),
-                 None if f is None else f.text + suffix, fact=fact)
+        rep.inst(rule + ':' + ('api' if prefix else SUBRULE[c]), fn, prefix + c, f is None,
+                 (f.where if f is not None and f.where else where0), None if f is None else f.text + suffix, fact=fact)
     for c, f in failed.items():
         if c not in clauses:
-            rep.inst(rule, fn, prefix + c, False, f.where or where0, f.text + suffix, fact=fact)
+            rep.inst(rule + ':' + ('api' if prefix else SUBRULE.get(c, 'completes')), fn, prefix + c, False, f.where or where0,
+                     f.text + suffix, fact=fact)
     return not failed
 
 
@@ -1169,7 +1204,7 @@ def mixed_rule(rep, ctx, arch, roots, stats, unit):
 
         def plan(assume):
             try:
-                run_items(ctx, arch, items, assume, stats)
+                run_items(ctx, arch, items, assume, stats, check_image=False)
             except Fail as f:
                 f.clause = 'mixed-sequence'
                 raise
@@ -1280,7 +1315,8 @@ def api_rule(rep, ctx, family, variants, stats, done):
                 raise Fail('value-identity', '%s: %s' % (stx, df))
             note_stats(stats, m)
         plans = [(lambda assume, v=v: scenario(v, assume)) for v in variants]
-        evaluate(rep, RULE, fn, ('completes', 'value-identity'), plans, where0, suffix, prefix='api:')
+        evaluate(rep, RULE, fn, ('completes', 'reads-only-own-bytes', 'value-identity') if family == 'A' else
+                 ('completes', 'value-identity'), plans, where0, suffix, prefix='api:')
         n += 1
     return n
 
@@ -1498,7 +1534,9 @@ def run_ext(rep, repo, tier):
         if n_roots.get(wit, 0) < floor:
             raise AnalysisBroken('only %d serializer/deserializer pairs and entry points analysed in %s (floor %d)'
                                  % (n_roots.get(wit, 0), wit, floor))
-    rep.floor(RULE, 500)
+    for sub, floor in (('completes', 75), ('value', 75), ('cursor', 75), ('reads', 75), ('sequence', 80), ('image', 75), ('writer', 12),
+                       ('api', 140)):
+        rep.floor(RULE + ':' + sub, floor)
     rep.floor(RULE_BLOCK, 18)
     rep.explanation += (
         ' ROUND TRIP BY BYTE IDENTITY (c09_roundtrip.py): for every paired type of both archive families, of the deeper '
